@@ -166,8 +166,9 @@ def validate_records(rng, count=150):
             for _ in range(rng.choice([1, 1, 2, 3])):
                 a = rng.randint(0, ln)
                 b = rng.randint(a, ln + rng.choice([0, 0, 3]))
-                parts.append((a, b, rng.choice([1, -1, 0, None])))
-            feats.append((parts, rng.choice(["CDS", "source", "misc"]), {"label": ["x%d" % rng.randint(0, 9)]}))
+                parts.append((a, b, rng.choice([1, -1, 0, None]), rng.choice(["ee", "ee", "ee", "ba", "be", "ea", "ab"])))
+            feats.append((parts, rng.choice(["CDS", "source", "misc"]), {"label": ["x%d" % rng.randint(0, 9)]},
+                          rng.choice(["join", "join", "order"])))
         op = rng.choice(["slice", "add", "rc", "rot", "rot", "lrot", "cslice", "crc"])
         a, b = rng.randint(-ln - 2, ln + 2), rng.randint(-ln - 2, ln + 2)
         k = rng.randint(-3 * ln - 1, 3 * ln + 1)
@@ -176,9 +177,11 @@ def validate_records(rng, count=150):
         for st in (sym, real):
             def mkrec(cls, s=s):
                 fs = []
-                for parts, typ, q in feats:
-                    locs = [st.SimpleLocation(x, y, strand=z) for x, y, z in parts]
-                    loc = locs[0] if len(locs) == 1 else st.CompoundLocation(locs)
+                for parts, typ, q, op in feats:
+                    def pos(v, kind):
+                        return {"e": int, "b": st.BeforePosition, "a": st.AfterPosition}[kind](v)
+                    locs = [st.SimpleLocation(pos(x, fz[0]), pos(y, fz[1]), strand=z) for x, y, z, fz in parts]
+                    loc = locs[0] if len(locs) == 1 else st.CompoundLocation(locs, operator=op)
                     fs.append(st.SeqFeature(loc, type=typ, qualifiers=dict(q)))
                 return cls(st.Seq(s), id="i", name="n", description="d", features=fs,
                            annotations={"topology": "circular", "molecule_type": "DNA"}, letter_annotations={"q": list(track)})
